@@ -282,7 +282,8 @@ bool vh::run_case(std::string const& op, Toks& in, Out& impl, Out& ref)
         auto a = static_cast<unsigned>(in.num());
         auto b = static_cast<unsigned>(in.num());
         guarded(impl, [&](Out& o) { o.tok("ok").num((ec::month{a} - ec::month{b}).count()); });
-        ref.tok("ok").num((sc::month{a} - sc::month{b}).count());
+        // [time.cal.month.nonmembers]: unspecified unless both months are ok()
+        if (a >= 1 && a <= 12 && b >= 1 && b <= 12) { ref.tok("ok").num((sc::month{a} - sc::month{b}).count()); }
         return true;
     }
     if (op == "ym_plus") {
@@ -307,8 +308,12 @@ bool vh::run_case(std::string const& op, Toks& in, Out& impl, Out& ref)
             if (!same) { o.tok("routes-differ"); }
             o.tok("ok").num(static_cast<int>(r.year())).num(static_cast<unsigned>(r.month()));
         });
-        auto sr = sc::year_month{sc::year{y}, sc::month{m}} + sc::months{dm};
-        ref.tok("ok").num(static_cast<int>(sr.year())).num(static_cast<unsigned>(sr.month()));
+        // reference only inside [time.cal.ym.nonmembers]' domain: ok() operand, result year representable
+        i64 const ry = i64{y} + ((i64{m} - 1 + dm) >= 0 ? (i64{m} - 1 + dm) / 12 : ((i64{m} - 1 + dm) - 11) / 12);
+        if (yr_in(y) && m >= 1 && m <= 12 && yr_in(ry)) {
+            auto sr = sc::year_month{sc::year{y}, sc::month{m}} + sc::months{dm};
+            ref.tok("ok").num(static_cast<int>(sr.year())).num(static_cast<unsigned>(sr.month()));
+        }
         return true;
     }
     if (op == "year_plus") {
@@ -360,7 +365,8 @@ bool vh::run_case(std::string const& op, Toks& in, Out& impl, Out& ref)
         auto a = static_cast<unsigned>(in.num());
         auto b = static_cast<unsigned>(in.num());
         guarded(impl, [&](Out& o) { o.tok("ok").num((ec::weekday{a} - ec::weekday{b}).count()); });
-        ref.tok("ok").num((sc::weekday{a} - sc::weekday{b}).count());
+        // [time.cal.wd.nonmembers]: unspecified unless both weekdays are ok() (7 is stored as 0)
+        if (a <= 7 && b <= 7) { ref.tok("ok").num((sc::weekday{a} - sc::weekday{b}).count()); }
         return true;
     }
     return run_case2(op, in, impl, ref);
@@ -483,7 +489,7 @@ static bool run_case2(std::string const& op, Toks& in, Out& impl, Out& ref)
         guarded(impl, [&](Out& o) { ymd_arith<E>(o, y, m, d, dm, dy); });
         auto fl = [](i64 a, i64 b) { return (a >= 0 ? a : a - (b - 1)) / b; };
         i64 M = i64{m} - 1;
-        if (yr_in(y) && yr_in(y + fl(M + dm, 12)) && yr_in(y + fl(M - dm, 12)) && yr_in(i64{y} + dy) && yr_in(i64{y} - dy)) {
+        if (m >= 1 && m <= 12 && yr_in(y) && yr_in(y + fl(M + dm, 12)) && yr_in(y + fl(M - dm, 12)) && yr_in(i64{y} + dy) && yr_in(i64{y} - dy)) {
             ymd_arith<S>(ref, y, m, d, dm, dy);
         }
         return true;
@@ -545,7 +551,7 @@ static bool run_case2(std::string const& op, Toks& in, Out& impl, Out& ref)
         auto dm = static_cast<int>(in.num()); auto dy = static_cast<int>(in.num());
         auto fl = [](i64 a, i64 b) { return (a >= 0 ? a : a - (b - 1)) / b; };
         i64 M = i64{m} - 1;
-        bool inr = yr_in(y) && yr_in(y + fl(M + dm, 12)) && yr_in(y + fl(M - dm, 12)) && yr_in(i64{y} + dy) && yr_in(i64{y} - dy);
+        bool inr = m >= 1 && m <= 12 && w <= 7 && idx <= 7 && yr_in(y) && yr_in(y + fl(M + dm, 12)) && yr_in(y + fl(M - dm, 12)) && yr_in(i64{y} + dy) && yr_in(i64{y} - dy);
         if (op == "ymdl_arith") {
             auto same = [](auto const& a, auto const& b) { return a.month_day_last() == b.month_day_last() || true; };
             guarded(impl, [&](Out& o) { o.tok("ok"); ym_routes<E>(o, ec::year_month_day_last{ec::year{y}, ec::month_day_last{ec::month{m}}}, dm, dy, true, same); });
@@ -577,7 +583,7 @@ static bool run_case2(std::string const& op, Toks& in, Out& impl, Out& ref)
             o.tok("ok"); yo(o, x.year()); uo(o, x.month()); o.num(x.weekday().c_encoding()).num(x.index()).b(x.ok());
             o.num(cnt(static_cast<ec::sys_days>(x)));
         });
-        {
+        if (z >= -12687428 && z <= 11248737) {   // the supported years; outside: defined, model tie only
             auto x = sc::year_month_weekday{sc::sys_days{sc::days{z}}};
             ref.tok("ok"); yo(ref, x.year()); uo(ref, x.month()); ref.num(x.weekday().c_encoding()).num(x.index()).b(x.ok());
             ref.num(cnt(static_cast<sc::sys_days>(x)));
@@ -591,7 +597,8 @@ static bool run_case2(std::string const& op, Toks& in, Out& impl, Out& ref)
             auto x = ec::year_month_weekday{ec::year{y}, ec::month{m}, ec::weekday{w}[idx]};
             o.tok("ok").num(cnt(static_cast<ec::sys_days>(x))).num(cnt(static_cast<ec::local_days>(x)));
         });
-        if (idx <= 7) {
+        // outside the ok() fields the value is unspecified: defined (sanitizer build), model tie only
+        if (idx <= 7 && yr_in(y) && m >= 1 && m <= 12 && w <= 7) {
             auto x = sc::year_month_weekday{sc::year{y}, sc::month{m}, sc::weekday{w}[idx]};
             ref.tok("ok").num(cnt(static_cast<sc::sys_days>(x))).num(cnt(static_cast<sc::local_days>(x)));
         }
@@ -604,7 +611,7 @@ static bool run_case2(std::string const& op, Toks& in, Out& impl, Out& ref)
             o.tok("ok").b(x.ok()).num(cnt(static_cast<ec::sys_days>(x))).num(cnt(static_cast<ec::local_days>(x)));
             if (!(x.year() == ec::year{y}) || !(x.month() == ec::month{m}) || !(x.weekday() == ec::weekday{w}) || !(x.weekday_last() == ec::weekday{w}[ec::last])) { o.tok("accessor-wrong"); }
         });
-        {
+        if (yr_in(y) && m >= 1 && m <= 12 && w <= 7) {
             auto x = sc::year_month_weekday_last{sc::year{y}, sc::month{m}, sc::weekday{w}[sc::last]};
             ref.tok("ok").b(x.ok()).num(cnt(static_cast<sc::sys_days>(x))).num(cnt(static_cast<sc::local_days>(x)));
         }
